@@ -3,7 +3,8 @@
 import json, os, shutil, sys
 sid, prop, caught, status = sys.argv[1:5]
 needs = ' '.join(sys.argv[5:])
-src = f'/tmp/seed_out/{sid}'
+import os as _os
+src = _os.environ.get('SEED_SRC', f'/tmp/seed_out/{sid}')
 dst = f'/verif/seeded/{sid}'
 os.makedirs(dst, exist_ok=True)
 for f in ('patch.diff', 'demo.py', 'notes.md'):
